@@ -165,12 +165,17 @@ class SolverStub:
         self.memo = []
         self.calls = 0
         self.args = []
+        self.preset = None
 
     def __call__(self, lle, mol, T, lle_chemicals, single_loop):
         w = self.env.w
         self.calls += 1
         IDs = tuple(c.ID for c in lle_chemicals)
         self.args.append((IDs, list(mol), T))
+        if self.mode == 'preset' and not self.memo:
+            # the caller of install_solver chose the leaves so that `preset` lies in the box of this very problem
+            self.memo.append((IDs, list(mol), T, list(self.preset)))
+            return self.env.arr(self.preset)
         if self.mode != 'havoc':
             for IDs0, z0, T0, out in self.memo:
                 if IDs0 == IDs and same(w, T0, T) and all(same(w, a, b) for a, b in zip(z0, mol)):
@@ -240,11 +245,41 @@ def ensure_lle_material(w, s, before, now, tag, owned=('l', 'L')):
 
 def top_rule(w, s, now, top):
     """Both liquids non-empty  =>  mass fraction of `top` in 'L' >= mass fraction in 'l' (cross-multiplied, masses > 0)."""
-    MW = MW_of(s)
-    ML = w_total([now['L', ID] * MW[ID] for ID in s.chemicals.IDs])
-    Ml = w_total([now['l', ID] * MW[ID] for ID in s.chemicals.IDs])
-    return w.Implies(w.And(w.gt(ML, 0.), w.gt(Ml, 0.)),
-                     w.ge(now['L', top] * MW[top] * Ml, now['l', top] * MW[top] * ML))
+    IDs = s.chemicals.IDs
+    return mass_fraction_rule(w, [now['L', ID] for ID in IDs], [now['l', ID] for ID in IDs], IDs.index(top), [MW_of(s)[ID] for ID in IDs])
+
+
+def decide(w, cond):
+    """Case split of the contract on a condition (symbolically: one branch decision, both outcomes explored if feasible)."""
+    if w.symbolic:
+        return bool(W._as_symbool(w, cond))
+    return bool(cond)
+
+
+def mass_fraction_rule(w, aL, al, k, MWs):
+    """Both phases have mass  =>  m_L[k]/M_L >= m_l[k]/M_l  (case split on 'both phases have mass', then the quotients exist)."""
+    mL = [a * m for a, m in zip(aL, MWs)]
+    ml = [a * m for a, m in zip(al, MWs)]
+    ML = w_total(mL)
+    Ml = w_total(ml)
+    if decide(w, w.And(w.gt(ML, 0.), w.gt(Ml, 0.))):
+        return w.ge(mL[k] / ML, ml[k] / Ml)
+    return w.And()
+
+
+def top_rule_per_unit_feed(w, s, now, top, sIDs, z, molL, F):
+    """
+    The same sentence written on the amounts per unit of feed (mass fractions do not change when both phases are
+    multiplied by the total flow F > 0): the outcome is the solver's split or its mirror image, and in either case
+    the phase that ended up as 'L' has the larger mass fraction of `top`.
+    """
+    MWs = [MW_of(s)[ID] for ID in sIDs]
+    k = sIDs.index(top)
+    a = list(molL)
+    b = [z[i] - molL[i] for i in range(len(sIDs))]
+    straight = w.And(*[w.And(w.eq(now['L', ID], a[i] * F), w.eq(now['l', ID], b[i] * F)) for i, ID in enumerate(sIDs)])
+    mirror = w.And(*[w.And(w.eq(now['l', ID], a[i] * F), w.eq(now['L', ID], b[i] * F)) for i, ID in enumerate(sIDs)])
+    return w.Or(w.And(straight, mass_fraction_rule(w, a, b, k, MWs)), w.And(mirror, mass_fraction_rule(w, b, a, k, MWs)))
 
 
 # --------------------------------------------------------------------------- C15/lle_call: one call (labelling, split = the solver's, frame)
@@ -273,7 +308,9 @@ def lle_call_configs(tier):
     out = []
     for pkg, phases, pat, top, mode in fam:
         nm = f"{pkg}/{phases}/" + ','.join(f'{k[0]}{v}' for k, v in pat.items()) + f"/top={top}/solver={mode}"
-        out.append({'name': nm, 'pkg': pkg, 'phases': phases, 'pattern': pat, 'top': top, 'solver': mode})
+        # the two-chemical configurations state the top-chemical rule directly on the outlet flows (products, no quotients),
+        # the larger ones on the amounts per unit of feed (see top_rule_per_unit_feed)
+        out.append({'name': nm, 'pkg': pkg, 'phases': phases, 'pattern': pat, 'top': top, 'solver': mode, 'per_unit': pkg != 'WO'})
     return out
 
 
@@ -313,11 +350,226 @@ def lle_call(w, cfg):
             for i, ID in enumerate(sIDs):
                 w.ensure(f'solver saw the normalised feed z[{ID}]', w.eq(z[i] * F, before['l', ID] + before['L', ID]))
         if top is not None and top in IDs and stub.calls:
-            w.ensure(f'top chemical {top}: mass fraction in L >= in l', top_rule(w, s, now, top))
+            if top in sIDs and cfg.get('per_unit', True):
+                w.ensure(f'top chemical {top}: mass fraction in L >= in l', top_rule_per_unit_feed(w, s, now, top, list(sIDs), z, molL, F))
+            else:
+                w.ensure(f'top chemical {top}: mass fraction in L >= in l', top_rule(w, s, now, top))
             other = next(i for i in IDs if i != top)
             w.canary(f'canary: {other} also has its larger mass fraction in L', top_rule(w, s, now, other))
         else:
             w.canary('canary: L stays empty', w.eq(w_total([now['L', ID] for ID in IDs]), 0.))
         w.note(solver_calls=stub.calls, flows=now)
+    finally:
+        env.restore()
+
+
+# --------------------------------------------------------------------------- C15/lle_scaling: flows proportional to the feed
+
+def lle_scaling_configs(tier):
+    fam = [
+        ('WO', {'Water': '+0', 'Octanol': '0+'}, None, 'box'),
+        ('WO', {'Water': '+0', 'Octanol': '0+'}, 'Octanol', 'box'),
+        ('WO', {'Water': '++', 'Octanol': '0+'}, 'Water', 'interior'),
+        ('WOE', {'Water': '+0', 'Octanol': '0+', 'Ethanol': '+0'}, 'Octanol', 'interior'),
+    ]
+    if tier == 'thorough':
+        fam += [
+            ('WO', {'Water': '+?', 'Octanol': '?+'}, 'Octanol', 'box'),
+            ('WOE', {'Water': '+0', 'Octanol': '0+', 'Ethanol': '+0'}, None, 'box'),
+            ('EOW', {'Water': '+0', 'Octanol': '0+', 'Ethanol': '0+'}, 'Water', 'box'),
+        ]
+    return [{'name': f"{pkg}/" + ','.join(f'{k[0]}{v}' for k, v in pat.items()) + f"/top={top}/solver={mode}",
+             'pkg': pkg, 'pattern': pat, 'top': top, 'solver': mode} for pkg, pat, top, mode in fam]
+
+
+@group('C15/lle_scaling', configs=lle_scaling_configs, functions=LLE_FUNCS, assumptions=[A_OPT])
+def lle_scaling(w, cfg):
+    """Relational: the same calculation on `feed` and on `k * feed` (two streams, one solver contract): every outlet flow is k times."""
+    W.reset_caches()
+    env = Env(w, cfg)
+    try:
+        stub = install_solver(env, cfg['solver'])
+        phases = 'lL'
+        a, la = lle_stream(w, 'f', cfg['pkg'], phases, dist_of(cfg['pkg'], phases, cfg['pattern']))
+        k = w.real('k', lo=1e-3, hi=1e3)
+        b = tmo.MultiStream(None, phases=tuple(phases), thermo=a.thermo)
+        IDs = a.chemicals.IDs
+        rows_b = dict(W.rows_of(b))
+        for (ph, ID), v in la.items():
+            if isinstance(v, float) and v == 0.:
+                continue
+            if decide(w, w.ne(v, 0.)):
+                rows_b[ph].dct[IDs.index(ID)] = k * v
+        T = w.real('T', lo=285., hi=355.)
+        top = cfg['top']
+        a.lle(T, top_chemical=top)
+        now_a = flows_now(a)
+        b.lle(T, top_chemical=top)
+        now_b = flows_now(b)
+        for key in sorted(now_a):
+            w.ensure(f'flow{list(key)} of k*feed = k * flow of feed', w.eq(now_b[key], k * now_a[key]))
+        after = flows_now(a)
+        w.ensure('frame: the other stream is untouched', w.And(*[w.eq(after[key], now_a[key]) for key in sorted(now_a)]))
+        w.ensure('rep_ok', w.And(rep_ok(w, a), rep_ok(w, b)))
+        key = ('L', IDs[0])
+        w.canary('canary: k*feed gives the flows of feed', w.eq(now_b[key], now_a[key] + 1))
+        w.note(solver_calls=stub.calls, distinct_problems=len(stub.memo))
+    finally:
+        env.restore()
+
+
+# --------------------------------------------------------------------------- C15/lle_cache_decision: when may the remembered K be reused
+
+class _Stop(Exception):
+    """Ends the second call right after the reuse decision has been observed (the rest of the call is covered by the other groups)."""
+
+
+def lle_cache_decision_configs(tier):
+    fam = [
+        # pkg, chemicals present at the first call, at the second call, top
+        ('WO', ['Water', 'Octanol'], ['Water', 'Octanol'], None),
+        ('WOE', ['Water', 'Octanol'], ['Water', 'Octanol'], 'Octanol'),
+        ('WOE', ['Water', 'Octanol'], ['Water', 'Ethanol'], None),              # same number of chemicals, another pair
+        ('WOE', ['Water', 'Octanol'], ['Water', 'Octanol', 'Ethanol'], None),   # one chemical more
+        ('WOE', ['Water', 'Octanol', 'Ethanol'], ['Water', 'Octanol', 'Ethanol'], None),
+    ]
+    if tier == 'thorough':
+        fam += [
+            ('EOW', ['Water', 'Octanol', 'Ethanol'], ['Water', 'Octanol', 'Ethanol'], 'Water'),
+            ('EOW', ['Water', 'Octanol', 'Ethanol'], ['Octanol', 'Ethanol'], None),
+            ('WOE', ['Octanol', 'Ethanol'], ['Water', 'Octanol'], 'Octanol'),
+        ]
+    return [{'name': f"{pkg}/first={'+'.join(i[0] for i in c1)}/second={'+'.join(i[0] for i in c2)}/top={top}",
+             'pkg': pkg, 'first': c1, 'second': c2, 'top': top} for pkg, c1, c2, top in fam]
+
+
+@group('C15/lle_cache_decision', configs=lle_cache_decision_configs, functions=['thermosteam.equilibrium.lle:LLE.__call__'],
+       assumptions=['A-opt (box only): LLE.solve_lle_liquid_mol returns 0 <= mol_L <= mol',
+                    'A-phase-fraction: binary_phase_fraction.phase_fraction returns a value in [0, 1]'])
+def lle_cache_decision(w, cfg):
+    """
+    A call never returns the equilibrium of an earlier temperature or composition: the remembered coefficients are
+    reused only if the chemicals are the same and temperature and every mole fraction agree with the remembered
+    ones within the solver's own tolerances (both directions).
+    """
+    W.reset_caches()
+    env = Env(w, cfg)
+    try:
+        stub = install_solver(env, 'interior')      # what the first call returned is irrelevant for the decision under check
+        seen = {'second': False, 'reused': None}
+
+        def phase_fraction(zs, Ks, guess=None, za=0., zb=0.):
+            if seen['second']:
+                seen['reused'] = True
+                raise _Stop()
+            return env.leaf('phi', lo=0., hi=1.)
+
+        real_stub = lle_mod.LLE.solve_lle_liquid_mol
+
+        def solve(self, mol, T, lle_chemicals, single_loop):
+            if seen['second']:
+                seen['reused'] = False
+                raise _Stop()
+            return real_stub(self, mol, T, lle_chemicals, single_loop)
+
+        env.patch(lle_mod, 'phase_fraction', phase_fraction)
+        env.patch(lle_mod.LLE, 'solve_lle_liquid_mol', solve)
+        pkg = cfg['pkg']
+        top = cfg['top']
+        s, l1 = lle_stream(w, 'f', pkg, 'lL', {ID: {'l': '+', 'L': '0'} for ID in cfg['first']})
+        lle = s.lle
+        T0 = w.real('T0', lo=285., hi=355.)
+        lle(T0, top_chemical=top)
+        F0 = w_total([l1['l', ID] for ID in cfg['first']])
+        z0 = {ID: l1['l', ID] / F0 for ID in cfg['first']}
+        l2 = plant(w, s, 'g', {ID: {'l': '+', 'L': '+'} for ID in cfg['second']})
+        F1 = w_total([l2['l', ID] + l2['L', ID] for ID in cfg['second']])
+        z1 = {ID: (l2['l', ID] + l2['L', ID]) / F1 for ID in cfg['second']}
+        T1 = w.real('T1', lo=285., hi=355.)
+        seen['second'] = True
+        try:
+            lle(T1, top_chemical=top, use_cache=True)
+        except _Stop:
+            pass
+        reused = seen['reused']
+        if reused is None:
+            raise AssertionError('the second call neither solved nor reused (contract harness out of date)')
+        tolT = lle.temperature_cache_tolerance
+        tolz = lle.composition_cache_tolerance
+        if reused:
+            same_chems = sorted(cfg['first']) == sorted(cfg['second'])
+            w.ensure('reuse only for the same chemicals', w.And(same_chems))
+            w.ensure('reuse only at the remembered temperature (|T - T_last| < tolerance)',
+                     w.And(w.lt(T1 - T0, tolT), w.lt(T0 - T1, tolT)))
+            if same_chems:
+                for ID in cfg['first']:
+                    w.ensure(f'reuse only at the remembered composition (|z - z_last| < tolerance) [{ID}]',
+                             w.And(w.lt(z1[ID] - z0[ID], tolz), w.lt(z0[ID] - z1[ID], tolz)))
+        else:
+            w.ensure('solving anew is always allowed', w.And())
+        if sorted(cfg['first']) == sorted(cfg['second']):
+            w.canary('canary: the remembered coefficients are never reused', w.And(not reused))
+        else:
+            w.canary('canary: the second call is at the first temperature', w.eq(T1, T0))
+        w.note(reused=reused, T0=T0, T1=T1)
+    finally:
+        env.restore()
+
+
+# --------------------------------------------------------------------------- C15/lle_reuse: reuse allowed == reuse forbidden
+
+def lle_reuse_configs(tier):
+    fam = [('WO', None), ('WO', 'Octanol'), ('WO', 'Water')]
+    return [{'name': f'{pkg}/top={top}', 'pkg': pkg, 'top': top} for pkg, top in fam]
+
+
+@group('C15/lle_reuse', configs=lle_reuse_configs,
+       functions=LLE_FUNCS + ['thermosteam.equilibrium.binary_phase_fraction:phase_fraction',
+                              'thermosteam.equilibrium.binary_phase_fraction:compute_phase_fraction_2N'],
+       assumptions=[A_OPT, 'requires: the solver returned two liquids of different composition (every partition coefficient '
+                           'differs from 1 by more than 1e-6), every mole fraction >= 1e-16 (no clamping of the stored K); '
+                           'total feed 1 mol'])
+def lle_reuse(w, cfg):
+    """
+    Same stream, same temperature, same composition, two calls: the first solves (reuse impossible), the second is allowed
+    to reuse the remembered partition coefficients.  It must give the same split (same flows under the same labels) as the
+    call that could not reuse anything.  The Rachford-Rice step of the reuse branch is the REAL two-component closed form.
+
+    Leaves: the solver's answer is parametrised by the fraction `beta` of the feed it puts in its first phase and the mole
+    fraction of the first chemical in each of its two phases (xa, xb); the feed is z = beta*xa + (1-beta)*xb, 1 - z (every
+    feed with every interior solver answer is of this form, and the terms stay small).
+    """
+    W.reset_caches()
+    env = Env(w, cfg)
+    try:
+        stub = install_solver(env, 'preset')
+        pkg = cfg['pkg']
+        top = cfg['top']
+        IDs = PKGS[pkg]
+        s, l1 = lle_stream(w, 'f', pkg, 'lL', {})
+        beta = w.real('beta', lo=0., hi=1., lo_strict=True, hi_strict=True)
+        xa = w.real('xa', lo=1e-16, hi=1. - 1e-16)
+        xb = w.real('xb', lo=1e-16, hi=1. - 1e-16)
+        # two different compositions: both partition coefficients differ from 1 by more than 1e-6
+        for p, q in ((xa, xb), (1. - xa, 1. - xb)):
+            w.assume(w.Or(w.ge(p, (1 + 1e-6) * q), w.le(p, (1 - 1e-6) * q)))
+        a = [beta * xa, beta * (1. - xa)]
+        z0 = a[0] + (1. - beta) * xb
+        row = dict(W.rows_of(s))['l']
+        row.dct[0] = z0
+        row.dct[1] = 1. - z0
+        stub.preset = a
+        lle = s.lle
+        T0 = w.real('T0', lo=285., hi=355.)
+        lle(T0, top_chemical=top)
+        snap1 = flows_now(s)
+        calls = stub.calls
+        lle(T0, top_chemical=top, use_cache=True)
+        snap2 = flows_now(s)
+        for key in sorted(snap1):
+            w.ensure(f'reuse allowed: flow{list(key)} same as in the call that had nothing to reuse', w.eq(snap2[key], snap1[key]))
+        w.ensure('T is the requested temperature', w.eq(s.T, T0))
+        w.canary('canary: the reuse branch is never taken', w.And(stub.calls != calls))
+        w.note(solver_calls=stub.calls, reused=stub.calls == calls, snap1=snap1, snap2=snap2)
     finally:
         env.restore()
